@@ -4,6 +4,7 @@ import VlsModel.Gen.FnChannel
 import VlsModel.Gen.FnEnforceNew
 import VlsModel.Lemmas.FnGen
 import VlsModel.Lemmas.EnforcementFn
+import VlsModel.Lemmas.HandlerFn
 /-
 C01 — the progression check in front of the holder counter, `Validator::set_next_holder_commit_num`
 (`vls-core/src/policy/validator.rs:256`, a default method of `trait Validator`, mechanism "set_next_holder_commit_num
@@ -428,5 +429,226 @@ example : Validator.set_next_holder_commit_num strict () (toES { slot := .ready,
     = .error (.err "policy-revoke-new-commitment-signed") := by rfl
 example : Validator.set_next_holder_commit_num (fun _ => false) () (toES { slot := .ready, next := 3 }) 5 9 9
     = .error .panic := by rfl
+
+/-! ### Arms of `ChannelHandler::do_handle` (vls-protocol-signer/src/handler.rs), round 9
+
+`Gen/FnHandlerArms.lean` is regenerated on every run from the text of the arms `GetPerCommitmentPoint(2)`,
+`RevokeCommitmentTx`, `ValidateCommitmentTx(2)` (arm extraction `translate/fn_arms.py`; normalisations and declared
+externals in `translate/fn_targets/HandlerArms.b0103.json`, listed in the header of the generated file).  The channel
+methods the closures call are explicit parameters; here they are instantiated with the channel-level functions of the
+model (`Lemmas/HandlerFn.lean`), and the model's handler composites `hGetPoint2`, `hGetPoint`, `hRevoke`, `hValidate` of
+`chanStep` are proved to give the reply class and the disclosed secret of the generated arm, for every protocol
+version, commitment number, slot kind and channel state.  What comes from the source through these theorems: the
+protocol-version branches (`< 5`: validate revokes at once / `RevokeCommitmentTx` is refused; `< 6`: `GetPerCommitmentPoint`
+also returns the secret of `n - 2` for `n ≥ 2`), the arguments (`commit_num + 1` with its overflow, evaluated after the
+slot lookup; `commitment_number - 2`), the order validate → revoke / point of `n + 1` / activate on the state the
+validation leaves, `n > 0` versus the initial commitment, the refusal of a reply without secret in `RevokeCommitmentTx`,
+and the crashes on malformed signature bytes in front of everything else.  Hand-written and tied by the correspondence
+run only: the lookup `Node::with_channel(_base)` (`readyChannel`/`channelBase`), and the final channel state of a
+composite (the generated arms return the reply; the state after the last call is the model's, stated per theorem). -/
+section HandlerArms
+open VlsModel.Secrets VlsModel.Lemmas.HandlerFn
+open VlsModel.Gen.FnHandlerArms
+
+/-- `GetPerCommitmentPoint2` -/
+theorem C01_fn_handle_get_per_commitment_point2 (F : Nat → Bytes → Bytes) (c : Chan) (ver n : Nat) :
+    ChannelHandler.handle_get_per_commitment_point2 channelBase pointM id (handler c ver) ⟨n⟩
+        = resM (getPoint c n) ⟨n⟩
+    ∧ (chanStep F c (.hGetPoint2 n)).out.res
+        = hcls (ChannelHandler.handle_get_per_commitment_point2 channelBase pointM id (handler c ver) ⟨n⟩)
+    ∧ (chanStep F c (.hGetPoint2 n)).c = c := by
+  have h : ChannelHandler.handle_get_per_commitment_point2 channelBase pointM id (handler c ver) ⟨n⟩
+        = resM (getPoint c n) ⟨n⟩ := by
+    simp only [ChannelHandler.handle_get_per_commitment_point2, channelBase, pointM, handler, Rs.bind_ok]
+    generalize getPoint c n = r
+    cases r <;> rfl
+  refine ⟨h, ?_, ?_⟩
+  · rw [h]; simp [chanStep, fail]
+  · simp [chanStep, fail]
+
+/-- `GetPerCommitmentPoint` -/
+theorem C01_fn_handle_get_per_commitment_point (F : Nat → Bytes → Bytes) (c : Chan) (ver n : Nat) :
+    let g := ChannelHandler.handle_get_per_commitment_point channelBase pointM (fun ch k => secretM (getSecret ch k)) id id
+               (handler c ver) ⟨n⟩
+    let o := (chanStep F c (.hGetPoint ver n)).out
+    o.res = hcls g
+    ∧ (∀ r, g = .ok r → r.point = n ∧ r.secret = o.secret)
+    ∧ (chanStep F c (.hGetPoint ver n)).c = c := by
+  have hp : getPoint c n = .ok ∨ getPoint c n = .errPolicy := by
+    unfold getPoint; split <;> split <;> simp
+  by_cases a : ver < 6 <;> by_cases b : 2 ≤ n <;> rcases hp with hp | hp <;>
+    rcases getSecret_cases c (n - 2) with hs | hs <;>
+    simp [ChannelHandler.handle_get_per_commitment_point, channelBase, pointM, handler, chanStep, ver_no_secret, hp, hs,
+      resM, fail, a, b, secretM, hcls, Rs.usub]
+/-- `RevokeCommitmentTx` -/
+theorem C01_fn_handle_revoke_commitment_tx (F : Nat → Bytes → Bytes) (c : Chan) (ver n : Nat) (po : Bool) :
+    let g := ChannelHandler.handle_revoke_commitment_tx readyChannel (fun ch k => revokeM (revokeP ch k po).out k) id id
+               (handler c ver) ⟨n⟩
+    let o := (chanStep F c (.hRevoke ver n po)).out
+    o.res = hcls g
+    ∧ (∀ r, g = .ok r → o.secret = some r.old_commitment_secret ∧ r.next_per_commitment_point = n + 2)
+    ∧ (chanStep F c (.hRevoke ver n po)).c
+        = if ver < 5 ∨ c.slot = .stub ∨ n + 1 > Rs.U64_MAX then c else (revokeP c (n + 1) po).c := by
+  by_cases a : ver < 5
+  · simp [ChannelHandler.handle_revoke_commitment_tx, handler, chanStep, ver_revoke, a, fail, Rs.fail, hcls]
+  · cases hs : c.slot
+    · simp [ChannelHandler.handle_revoke_commitment_tx, handler, chanStep, ver_revoke, a, fail, Rs.fail, hcls,
+        readyChannel, needReady, hs]
+    · by_cases b : n + 1 ≤ Rs.U64_MAX
+      · have b' : ¬ n + 1 > Rs.U64_MAX := by omega
+        generalize hr : revokeP c (n + 1) po = r
+        rcases r with ⟨c', ⟨res, secret, signed, validated⟩, p⟩
+        cases res <;> cases secret <;>
+          simp [ChannelHandler.handle_revoke_commitment_tx, handler, chanStep, ver_revoke, a, fail, Rs.fail, hcls,
+            readyChannel, needReady, hs, u64max, b, b', Rs.uadd, hr, revokeM, resM, Rs.okOr]
+      · have b' : n + 1 > Rs.U64_MAX := by omega
+        simp [ChannelHandler.handle_revoke_commitment_tx, handler, chanStep, ver_revoke, a, fail, Rs.fail, hcls,
+          readyChannel, needReady, hs, u64max, b, b', Rs.uadd, Rs.overflow]
+/-- `ValidateCommitmentTx2` -/
+theorem C01_fn_handle_validate_commitment_tx2 (F : Nat → Bytes → Bytes) (ex : Nat → List Nat × List Nat)
+    (sfc : Nat → Option Nat) (items : Nat → List (BitcoinSignature Nat))
+    (I : Nat → Nat → Nat → List Nat → List Nat → Nat)
+    (S : Nat → Nat → Nat → List Nat → List Nat → Nat → List Nat → SigFact)
+    (P : Nat → Nat → Nat → List Nat → List Nat → Bool) (c : Chan) (ver : Nat)
+    (m : ValidateCommitmentTx2 Nat Nat) (cs : Nat) (hs : List Nat)
+    (hc : sfc m.signature.signature = some cs) (hh : m.signature.sighash = 1)
+    (hmap : List.mapM (fun (s : BitcoinSignature Nat) => do
+        let t_6 ← do
+            let _ ← Rs.assert ((s.sighash == 1) || (s.sighash == 131))
+            let t_5 ← Rs.unwrap (sfc s.signature)
+            pure t_5
+        pure t_6) (items m.htlc_signatures) = .ok hs) :
+    let off := (ex m.htlcs).2
+    let rcv := (ex m.htlcs).1
+    let g := ChannelHandler.handle_validate_commitment_tx2 ex sfc items readyChannel
+      (fun ch num fee tl tr o r csig hsigs =>
+        validateM (validate ch num (I fee tl tr o r) (S fee tl tr o r csig hsigs) (P fee tl tr o r)))
+      (fun ch k => revokeM (revoke ch k).out k) pointM (fun ch => resM (activate ch).out.res 1) id id (handler c ver) m
+    let o := (chanStep F c (.hValidate ver m.commitment_number
+                (I m.feerate m.to_local_value_sat m.to_remote_value_sat off rcv)
+                (S m.feerate m.to_local_value_sat m.to_remote_value_sat off rcv cs hs)
+                (P m.feerate m.to_local_value_sat m.to_remote_value_sat off rcv))).out
+    o.res = hcls g ∧ (∀ r, g = .ok r → o.secret = r.old_commitment_secret) := by
+  simp only [ChannelHandler.handle_validate_commitment_tx2, hc, hh, hmap, Rs.bind_ok, Rs.pure_eq, handler, chanStep]
+  simp only [Rs.unwrap, Rs.assert, beq_self_eq_true, if_true, Rs.bind_ok, Rs.pure_eq, ver_revoke, u64max]
+  cases hsl : c.slot
+  · simp [readyChannel, needReady, hsl, fail, hcls]
+  · simp only [readyChannel, needReady, hsl, Rs.bind_ok]
+    generalize validate c m.commitment_number _ _ _ = r0
+    rcases r0 with ⟨c1, ⟨res, sec, sg, vd⟩, p⟩
+    cases res
+    case ok =>
+      simp only [validateM, resM, andThen, Rs.bind_ok, if_true]
+      by_cases a : ver < 5
+      · generalize revoke c1 m.commitment_number = r1
+        rcases r1 with ⟨c2, ⟨res1, sec1, sg1, vd1⟩, p1⟩
+        cases res1 <;> simp [a, revokeM, resM, hcls]
+      · by_cases b : m.commitment_number > 0
+        · by_cases d : m.commitment_number + 1 ≤ Rs.U64_MAX
+          · have d' : ¬ m.commitment_number + 1 > Rs.U64_MAX := by omega
+            generalize hp : getPoint c1 (m.commitment_number + 1) = rp
+            cases rp <;> simp [a, b, d, d', Rs.uadd, pointM, resM, hcls, fail, hp]
+          · have d' : m.commitment_number + 1 > Rs.U64_MAX := by omega
+            simp [a, b, d, d', Rs.uadd, Rs.overflow, fail, hcls]
+        · have hsec : (activate c1).out.secret = none := by
+            unfold activate; split
+            · simp [fail]
+            · split <;> simp [fail]
+          generalize activate c1 = ra at hsec
+          rcases ra with ⟨c2, ⟨res1, sec1, sg1, vd1⟩, p1⟩
+          simp only at hsec
+          cases res1 <;> simp [a, b, resM, hcls, hsec]
+    all_goals simp [validateM, resM, andThen, hcls]
+
+/-- `ValidateCommitmentTx` -/
+theorem C01_fn_handle_validate_commitment_tx (F : Nat → Bytes → Bytes) (ex : Nat → List Nat × List Nat)
+    (sfc : Nat → Option Nat) (items : Nat → List (BitcoinSignature Nat))
+    (I : Nat → List Nat → Nat → List Nat → List Nat → Nat)
+    (S : Nat → List Nat → Nat → List Nat → List Nat → Nat → List Nat → SigFact)
+    (P : Nat → List Nat → Nat → List Nat → List Nat → Bool) (c : Chan) (ver : Nat)
+    (pin : Nat → Nat) (wit : Nat → List Nat) (tin : Nat → Nat)
+    (m : ValidateCommitmentTx Nat Nat Nat) (cs : Nat) (hs : List Nat)
+    (hc : sfc m.signature.signature = some cs) (hh : m.signature.sighash = 1)
+    (hmap : List.mapM (fun (s : BitcoinSignature Nat) => do
+        let t_6 ← do
+            let _ ← Rs.assert ((s.sighash == 1) || (s.sighash == 131))
+            let t_5 ← Rs.unwrap (sfc s.signature)
+            pure t_5
+        pure t_6) (items m.htlc_signatures) = .ok hs) :
+    let off := (ex m.htlcs).2
+    let rcv := (ex m.htlcs).1
+    let g := ChannelHandler.handle_validate_commitment_tx pin wit tin ex sfc items readyChannel
+      (fun ch tx ws num fee o r csig hsigs =>
+        validateM (validate ch num (I tx ws fee o r) (S tx ws fee o r csig hsigs) (P tx ws fee o r)))
+      (fun ch k => revokeM (revoke ch k).out k) pointM (fun ch => resM (activate ch).out.res 1) id id (handler c ver) m
+    let o := (chanStep F c (.hValidate ver m.commitment_number
+                (I (tin m.tx) (wit (pin m.psbt)) m.feerate off rcv)
+                (S (tin m.tx) (wit (pin m.psbt)) m.feerate off rcv cs hs)
+                (P (tin m.tx) (wit (pin m.psbt)) m.feerate off rcv))).out
+    o.res = hcls g ∧ (∀ r, g = .ok r → o.secret = r.old_commitment_secret) := by
+  simp only [ChannelHandler.handle_validate_commitment_tx, hc, hh, hmap, Rs.bind_ok, Rs.pure_eq, handler, chanStep]
+  simp only [Rs.unwrap, Rs.assert, beq_self_eq_true, if_true, Rs.bind_ok, Rs.pure_eq, ver_revoke, u64max]
+  cases hsl : c.slot
+  · simp [readyChannel, needReady, hsl, fail, hcls]
+  · simp only [readyChannel, needReady, hsl, Rs.bind_ok]
+    generalize validate c m.commitment_number _ _ _ = r0
+    rcases r0 with ⟨c1, ⟨res, sec, sg, vd⟩, p⟩
+    cases res
+    case ok =>
+      simp only [validateM, resM, andThen, Rs.bind_ok, if_true]
+      by_cases a : ver < 5
+      · generalize revoke c1 m.commitment_number = r1
+        rcases r1 with ⟨c2, ⟨res1, sec1, sg1, vd1⟩, p1⟩
+        cases res1 <;> simp [a, revokeM, resM, hcls]
+      · by_cases b : m.commitment_number > 0
+        · by_cases d : m.commitment_number + 1 ≤ Rs.U64_MAX
+          · have d' : ¬ m.commitment_number + 1 > Rs.U64_MAX := by omega
+            generalize hp : getPoint c1 (m.commitment_number + 1) = rp
+            cases rp <;> simp [a, b, d, d', Rs.uadd, pointM, resM, hcls, fail, hp]
+          · have d' : m.commitment_number + 1 > Rs.U64_MAX := by omega
+            simp [a, b, d, d', Rs.uadd, Rs.overflow, fail, hcls]
+        · have hsec : (activate c1).out.secret = none := by
+            unfold activate; split
+            · simp [fail]
+            · split <;> simp [fail]
+          generalize activate c1 = ra at hsec
+          rcases ra with ⟨c2, ⟨res1, sec1, sg1, vd1⟩, p1⟩
+          simp only at hsec
+          cases res1 <;> simp [a, b, resM, hcls, hsec]
+    all_goals simp [validateM, resM, andThen, hcls]
+
+/-- outside the well-formed requests: an unparsable commitment signature or a sighash byte other than `ALL` crashes the
+    handler (`.expect("signature")`, `assert_eq!`) before the channel is looked up — for EVERY instance of the externals -/
+theorem C01_fn_handle_validate_wire_panics {Ch : Type} (ex : Nat → List Nat × List Nat)
+    (sfc : Nat → Option Nat) (items : Nat → List (BitcoinSignature Nat)) (rc : Chan → Unit → Rs.M Ch)
+    (v : Ch → Nat → Nat → Nat → Nat → List Nat → List Nat → Nat → List Nat → Rs.M Ch)
+    (rv : Ch → Nat → Rs.M (Nat × Option Nat)) (gp : Ch → Nat → Rs.M Nat) (ac : Ch → Rs.M Nat) (c : Chan) (ver : Nat)
+    (m : ValidateCommitmentTx2 Nat Nat) :
+    (sfc m.signature.signature = none →
+      ChannelHandler.handle_validate_commitment_tx2 ex sfc items rc v rv gp ac id id (handler c ver) m = .error .panic)
+    ∧ (∀ cs, sfc m.signature.signature = some cs → m.signature.sighash ≠ 1 →
+      ChannelHandler.handle_validate_commitment_tx2 ex sfc items rc v rv gp ac id id (handler c ver) m = .error .panic) := by
+  constructor
+  · intro h; simp [ChannelHandler.handle_validate_commitment_tx2, h, Rs.unwrap, Rs.panic]
+  · intro cs h h1; simp [ChannelHandler.handle_validate_commitment_tx2, h, Rs.unwrap, Rs.assert, h1, Rs.panic]
+
+/-- non-vacuity: version 4 on a fresh ready channel, `ValidateCommitmentTx2` of commitment 0 with a well-formed
+    signature list is accepted and revokes at once (no secret yet); at version 6 `RevokeCommitmentTx` after it hands out
+    nothing for `n = 0`… the hypotheses of the theorems above are satisfiable and the arms reach their `ok` replies -/
+example :
+    let m : ValidateCommitmentTx2 Nat Nat :=
+      { commitment_number := 0, feerate := 253, to_local_value_sat := 1000, to_remote_value_sat := 2000, htlcs := 0,
+        signature := ⟨7, 1⟩, htlc_signatures := 0 }
+    hcls (ChannelHandler.handle_validate_commitment_tx2 (HTLCInfo2 := Nat) (fun _ => ([], [])) (fun s => some s) (fun _ => [⟨9, 131⟩]) readyChannel
+      (fun ch num _ _ _ _ _ _ _ => validateM (validate ch num 11 .valid true))
+      (fun ch k => revokeM (revoke ch k).out k) pointM (fun ch => resM (activate ch).out.res 1) id id
+      (handler { slot := .ready } 4) m) = .ok
+    ∧ hcls (ChannelHandler.handle_revoke_commitment_tx readyChannel (fun ch k => revokeM (revokeP ch k true).out k) id id
+      (handler { slot := .ready, next := 1, cur := some 11, nextInfo := some 12 } 6) ⟨0⟩) = .ok
+    ∧ hcls (ChannelHandler.handle_revoke_commitment_tx readyChannel (fun ch k => revokeM (revokeP ch k true).out k) id id
+      (handler { slot := .ready, next := 1, cur := some 11, nextInfo := some 12 } 4) ⟨0⟩) = .errInvalid := by
+  decide
+
+end HandlerArms
 
 end VlsModel.Props.C01Fn
